@@ -115,3 +115,34 @@ Fixpoint pmark (g : N -> bool) (p : pex) : pex :=
   | POff o t i => POff o t (pmark g i)
   end.
 Definition automark (din dout : list pex) : list pex := map (pmark (fun n => negb (memNb n (lnames dout)))) din.
+
+(* ---- dot on the einsum path (the default numpy backend; _src/adapter/decomposednamedtensor_from_einsum.py) ----
+   both operands are reshaped to their leaf axes and handed to einsum with a subscript string in which every axis name gets
+   the next free letter at its first occurrence (operands left to right, then the output); the result - one dimension per leaf
+   axis of the output - is reshaped to the output dimensions *)
+Fixpoint ein_lookup (vars : list (N * nat)) (n : N) : option nat :=
+  match vars with [] => None | (k, v) :: r => if k =? n then Some v else ein_lookup r n end.
+Fixpoint ein_assign (vars : list (N * nat)) (names : list N) : list nat * list (N * nat) :=
+  match names with
+  | [] => ([], vars)
+  | n :: r =>
+    match ein_lookup vars n with
+    | Some k => let '(ks, v') := ein_assign vars r in (k :: ks, v')
+    | None => let k := List.length vars in let '(ks, v') := ein_assign (vars ++ [(n, k)]) r in (k :: ks, v')
+    end
+  end.
+Definition ein_letter (k : nat) : string := String (Ascii.ascii_of_nat (97 + k)) EmptyString.
+Definition ein_word (ks : list nat) : string := fold_right (fun k acc => append (ein_letter k) acc) EmptyString ks.
+Definition ein_subscripts (d1 d2 dout : list pex) : string :=
+  let '(k1, v1) := ein_assign [] (lnames d1) in
+  let '(k2, v2) := ein_assign v1 (lnames d2) in
+  let '(ko, _) := ein_assign v2 (lnames dout) in
+  append "'" (append (ein_word k1) (append "," (append (ein_word k2) (append "->" (append (ein_word ko) "'"))))).
+Definition ein_operand (k : nat) (d : list pex) : tm := MReshape (MIn k (map psize d)) (llens d).
+Definition lower_einsum_dot (d1 d2 dout : list pex) : tm :=
+  MReshape (MOther "einsum" [ein_operand 0 d1; ein_operand 1 d2] [ein_subscripts d1 d2 dout; "kw:"%string] (llens dout)) (map psize dout).
+Definition subset_names (a b : list N) : bool := forallb (fun n => memNb n b) a.
+Definition einsum_dot_ok (d1 d2 dout : list pex) : bool :=
+  forallb plain d1 && forallb plain d2 && forallb plain dout && nodupb (lnames d1) && nodupb (lnames d2) && nodupb (lnames dout)
+  && subset_names (lnames dout) (lnames d1 ++ lnames d2)
+  && Nat.leb (List.length (snd (ein_assign (snd (ein_assign [] (lnames d1))) (lnames d2)))) 26.
